@@ -681,7 +681,7 @@ type cbSubject struct {
 }
 
 // cbRun records encode (both passes), decode, re-encode, second decode of one value.
-func cbRun(rec *vRec, s *cbSubject, sum *cbSummary) {
+func cbRun(rec *vRec, s *cbSubject, sum *cbSummary) (encoded bool) {
 	buf, prep, real, eerr, epanic, prepDone := cbEncode(s.value)
 	key := fmt.Sprintf("%s/v%d", s.name, s.version)
 	if eerr != "" && !prepDone {
@@ -689,7 +689,7 @@ func cbRun(rec *vRec, s *cbSubject, sum *cbSummary) {
 		if epanic {
 			sum.Panicked[key] = eerr
 		}
-		return // values the sizing pass refuses are outside the domain (first encode fails)
+		return false // values the sizing pass refuses are outside the domain (first encode fails)
 	}
 	shape := cbShape(s.value)
 	if r, ok := s.value.(*request); ok {
@@ -742,11 +742,27 @@ func cbRun(rec *vRec, s *cbSubject, sum *cbSummary) {
 		sum.seen[dk] = true
 		sum.Distinct++
 	}
+	if eerr == "" {
+		cls := map[string]bool{}
+		val := reflect.ValueOf(s.value)
+		if r, ok := s.value.(*request); ok {
+			val = reflect.ValueOf(r.body)
+		}
+		cbNest(val, 0, 0, cls)
+		if sum.nestedSeen[key] == nil {
+			sum.nestedSeen[key] = map[string]bool{}
+		}
+		for c := range cls {
+			sum.Nested[c]++
+			sum.nestedSeen[key][c] = true
+		}
+	}
 	sum.Runs[key]++
 	sum.Total++
 	if len(sum.Samples) < 3 && sum.Total%97 == 1 {
 		sum.Samples = append(sum.Samples, fmt.Sprintf("%s v%d %s: %d bytes, %d cells", s.name, s.version, s.fill, len(buf), len(real.tape.cells)))
 	}
+	return true
 }
 
 type cbSummary struct {
@@ -757,18 +773,151 @@ type cbSummary struct {
 	Samples  []string          `json:"samples"`
 	Never    []string          `json:"never_encoded"`
 	Distinct int               `json:"distinct_nontrivial"`
-	seen     map[string]bool
+	// nested collections actually encoded, per relation of the inner length to the length of the collection around it
+	Nested       map[string]int      `json:"nested_shapes"`
+	NestedType   map[string][]string `json:"nested_shapes_missing_by_type"`
+	NestedBodies int                 `json:"bodies_with_nested_collections"`
+	nestedSeen   map[string]map[string]bool
+	seen         map[string]bool
+}
+
+var cbNestClasses = []string{"outer1_inner2plus", "outer2plus_inner1", "outer2plus_inner_other", "inner_empty"}
+
+// classifies every collection of the value that sits inside another collection
+func cbNest(v reflect.Value, outer int, depth int, out map[string]bool) {
+	if depth > 40 || !v.IsValid() {
+		return
+	}
+	t := v.Type()
+	if t == cbTimeT || t == cbBrokerT {
+		return
+	}
+	switch v.Kind() {
+	case reflect.Ptr, reflect.Interface:
+		if !v.IsNil() {
+			cbNest(v.Elem(), outer, depth+1, out)
+		}
+	case reflect.Struct:
+		if !v.CanAddr() {
+			c := reflect.New(t).Elem()
+			c.Set(v)
+			v = c
+		}
+		for i := 0; i < v.NumField(); i++ {
+			if t.Field(i).PkgPath != "" && cbNotValue[t.Field(i).Name] {
+				continue
+			}
+			if fv := cbField(v, i); fv.IsValid() {
+				cbNest(fv, outer, depth+1, out)
+			}
+		}
+	case reflect.Slice, reflect.Map:
+		if v.Kind() == reflect.Slice && t.Elem().Kind() == reflect.Uint8 {
+			return
+		}
+		n := v.Len()
+		if outer > 0 {
+			switch {
+			case n == 0:
+				out["inner_empty"] = true
+			case outer == 1 && n >= 2:
+				out["outer1_inner2plus"] = true
+			case outer >= 2 && n == 1:
+				out["outer2plus_inner1"] = true
+			case outer >= 2 && n != outer:
+				out["outer2plus_inner_other"] = true
+			}
+		}
+		if v.Kind() == reflect.Map {
+			for _, k := range v.MapKeys() {
+				cbNest(v.MapIndex(k), n, depth+1, out)
+			}
+		} else {
+			for i := 0; i < n; i++ {
+				cbNest(v.Index(i), n, depth+1, out)
+			}
+		}
+	}
+}
+
+func cbHasNested(t reflect.Type, inColl bool, seen map[reflect.Type]bool) bool {
+	switch t.Kind() {
+	case reflect.Ptr:
+		return cbHasNested(t.Elem(), inColl, seen)
+	case reflect.Slice, reflect.Map:
+		if t.Kind() == reflect.Slice && t.Elem().Kind() == reflect.Uint8 {
+			return false
+		}
+		if inColl {
+			return true
+		}
+		return cbHasNested(t.Elem(), true, seen)
+	case reflect.Struct:
+		if t == cbTimeT || t == cbBrokerT || seen[t] {
+			return false
+		}
+		seen[t] = true
+		defer delete(seen, t)
+		for i := 0; i < t.NumField(); i++ {
+			if t.Field(i).PkgPath != "" && cbNotValue[t.Field(i).Name] {
+				continue
+			}
+			if cbHasNested(t.Field(i).Type, inColl, seen) {
+				return true
+			}
+		}
+	}
+	return false
 }
 
 // ---------------------------------------------------------------- structural filler
 
 type cbFill struct {
-	rng     *rand.Rand
-	mode    int // 0 minimal (zero / nil / empty), 1 maximal, 2 negative / singleton, >= 3 random
-	version int16
-	depth   int
-	batch   bool // Records values hold a RecordBatch (else a legacy MessageSet)
-	magic   int8 // legacy message version
+	rng         *rand.Rand
+	mode        int // 0 minimal (zero / nil / empty), 1 maximal, 2 negative / singleton, >= 3 random
+	version     int16
+	depth       int
+	batch       bool  // Records values hold a RecordBatch (else a legacy MessageSet)
+	magic       int8  // legacy message version
+	shape       []int // cycle of collection lengths (see cbShapes); nil: seeded random per collection
+	pos         int   // position in the cycle of the collection around the value being filled (-1: none)
+	sib         int   // ordinal of the collection being filled among the collections of its struct
+	emptyNonNil bool
+}
+
+// Collection shapes derived from the structure, not from the type. Every collection has a position in a cycle of 4
+// distinct lengths: a top-level collection that is the s-th collection of its struct sits at position s, a collection
+// nested in a collection at position p sits at p+1+s (s < 3). A nested collection therefore never has the length of
+// the collection around it and the (up to 3) sibling collections of one struct have pairwise different lengths: a
+// length prefix taken from the wrong (outer or sibling) collection changes the bytes on the wire.
+//
+//	fill 1: outer 2 / inner 3 / 1 / 4     fill 2: outer 1 / inner 2 / 3 / 4     fill 3: outer 3 / inner 1 / 2 / 4
+//	fill 4: outer 2 / inner EMPTY         fill 5: second collection 2 / its inner EMPTY
+var cbShapes = [][]int{{0, 0, 0, 0}, {2, 3, 1, 4}, {1, 2, 3, 4}, {3, 1, 2, 4}, {2, 0, 1, 3}, {3, 2, 0, 1}}
+
+func cbShapeOf(fill int) []int {
+	if fill < len(cbShapes) {
+		return cbShapes[fill]
+	}
+	return nil
+}
+
+// position in the length cycle of the collection about to be filled
+func (f *cbFill) here() int { return (f.pos + 1 + f.sib%3) % 4 }
+
+// fills the elements of the collection at the current position: sibling ordinal restarts
+func (f *cbFill) inside(fn func()) {
+	p, s := f.pos, f.sib
+	f.pos, f.sib = f.here(), 0
+	fn()
+	f.pos, f.sib = p, s
+}
+
+func cbIsCollection(t reflect.Type) bool {
+	for t.Kind() == reflect.Ptr {
+		t = t.Elem()
+	}
+	return t.Kind() == reflect.Map || (t.Kind() == reflect.Slice && t.Elem().Kind() != reflect.Uint8)
 }
 
 var (
@@ -871,15 +1020,18 @@ func (f *cbFill) bytes() []byte {
 }
 
 func (f *cbFill) count() int {
-	switch f.mode {
-	case 0:
-		return 0
-	case 1:
-		return 2
-	case 2:
-		return 1
+	if f.shape != nil {
+		return f.shape[f.here()]
 	}
-	return f.rng.Intn(3)
+	return f.rng.Intn(4)
+}
+
+func (f *cbFill) shapeAt(pos int) int {
+	p := f.pos
+	f.pos = pos
+	n := f.count()
+	f.pos = p
+	return n
 }
 
 func (f *cbFill) timeMs() time.Time {
@@ -981,15 +1133,17 @@ func (f *cbFill) value(v reflect.Value) {
 		}
 		n := f.count()
 		if n == 0 {
-			if f.mode >= 3 && f.rng.Intn(2) == 0 {
+			if f.emptyNonNil || (f.shape == nil && f.rng.Intn(2) == 0) {
 				v.Set(reflect.MakeSlice(t, 0, 0))
 			}
 			return
 		}
 		s := reflect.MakeSlice(t, n, n)
-		for i := 0; i < n; i++ {
-			f.value(s.Index(i))
-		}
+		f.inside(func() {
+			for i := 0; i < n; i++ {
+				f.value(s.Index(i))
+			}
+		})
 		v.Set(s)
 	case reflect.Array:
 		for i := 0; i < v.Len(); i++ {
@@ -998,34 +1152,43 @@ func (f *cbFill) value(v reflect.Value) {
 	case reflect.Map:
 		n := f.count()
 		if n == 0 {
-			if f.mode >= 3 && f.rng.Intn(2) == 0 {
+			if f.emptyNonNil || (f.shape == nil && f.rng.Intn(2) == 0) {
 				v.Set(reflect.MakeMap(t))
 			}
 			return
 		}
 		m := reflect.MakeMap(t)
-		for i := 0; i < n; i++ {
-			k := reflect.New(t.Key()).Elem()
-			f.value(k)
-			if t.Key().Kind() == reflect.String {
-				k.SetString(k.String() + strconv.Itoa(i))
-			} else if k.CanInt() {
-				k.SetInt(k.Int()/2 + int64(i))
+		f.inside(func() {
+			for i := 0; i < n; i++ {
+				k := reflect.New(t.Key()).Elem()
+				f.value(k)
+				if t.Key().Kind() == reflect.String {
+					k.SetString(k.String() + strconv.Itoa(i))
+				} else if k.CanInt() {
+					k.SetInt(k.Int()/2 + int64(i))
+				}
+				e := reflect.New(t.Elem()).Elem()
+				f.value(e)
+				m.SetMapIndex(k, e)
 			}
-			e := reflect.New(t.Elem()).Elem()
-			f.value(e)
-			m.SetMapIndex(k, e)
-		}
+		})
 		v.Set(m)
 	case reflect.Struct:
+		saved, ord := f.sib, 0
 		for i := 0; i < t.NumField(); i++ {
 			if t.Field(i).PkgPath != "" && cbNotValue[t.Field(i).Name] {
 				continue
 			}
 			if fv := cbField(v, i); fv.IsValid() {
+				f.sib = saved
+				if cbIsCollection(t.Field(i).Type) || t.Field(i).Type == cbRecordsT {
+					f.sib = saved + ord // sibling collections of one struct get different lengths
+					ord++
+				}
 				f.value(fv)
 			}
 		}
+		f.sib = saved
 	case reflect.Interface:
 		// left nil
 	}
@@ -1036,7 +1199,7 @@ func (f *cbFill) value(v reflect.Value) {
 func (f *cbFill) record() *Record {
 	r := &Record{Attributes: int8(f.intOf(8)), TimestampDelta: time.Duration(f.intOf(16)) * time.Millisecond,
 		OffsetDelta: f.intOf(16), Key: f.bytes(), Value: f.bytes()}
-	for i, n := 0, f.count(); i < n; i++ {
+	for i, n := 0, f.count(); i < n; i++ { // called inside the Records collection: one level deeper already
 		r.Headers = append(r.Headers, &RecordHeader{Key: f.bytes(), Value: f.bytes()})
 	}
 	if f.mode >= 3 && f.rng.Intn(4) == 0 {
@@ -1065,9 +1228,11 @@ func (f *cbFill) recordBatch(codec CompressionCodec, nonEmpty bool) *RecordBatch
 	if nonEmpty && n == 0 {
 		n = 1
 	}
-	for i := 0; i < n; i++ {
-		b.Records = append(b.Records, f.record())
-	}
+	f.inside(func() {
+		for i := 0; i < n; i++ {
+			b.Records = append(b.Records, f.record())
+		}
+	})
 	return b
 }
 
@@ -1336,14 +1501,29 @@ func cbModeName(mode int) string {
 		return "maximal"
 	case 2:
 		return "negative"
+	case 3:
+		return "wide-outer"
+	case 4:
+		return "empty-inner"
+	case 5:
+		return "empty-inner2"
 	}
 	return "random" + strconv.Itoa(mode)
 }
 
 // fills one body of the given version; produce / fetch get valid record sets of the generation the version carries
-func cbMakeBody(b cbBody, version int16, mode int, rng *rand.Rand) protocolBody {
+func cbMakeBody(b cbBody, version int16, mode int, rng *rand.Rand, attempt int) protocolBody {
 	body := b.mk()
-	f := &cbFill{rng: rng, mode: mode, version: version}
+	f := &cbFill{rng: rng, mode: mode, version: version, shape: cbShapeOf(mode), pos: -1}
+	switch { // retries keep the collection shape and change the scalar values: all-zero (flags off), then -1s, then seeded random
+	case attempt == 1:
+		f.mode = 0
+	case attempt == 2:
+		f.mode = 2
+	case attempt > 2:
+		f.mode = len(cbShapes)
+	}
+	f.emptyNonNil = attempt%2 == 1 // an empty collection of a structural shape: nil first, non-nil empty on the retry
 	name := cbTypeName(body)
 	switch name {
 	case "ProduceRequest":
@@ -1387,10 +1567,14 @@ func cbMakeBody(b cbBody, version int16, mode int, rng *rand.Rand) protocolBody 
 	return body
 }
 
-func cbBodySubject(b cbBody, version int16, mode int, rng *rand.Rand, framed bool) *cbSubject {
-	body := cbMakeBody(b, version, mode, rng)
+func cbBodySubject(b cbBody, version int16, mode int, rng *rand.Rand, framed bool, attempt int) *cbSubject {
+	body := cbMakeBody(b, version, mode, rng, attempt)
 	name := cbTypeName(body)
-	s := &cbSubject{name: name, version: version, fill: cbModeName(mode),
+	fill := cbModeName(mode)
+	if attempt > 0 {
+		fill += "+retry" + strconv.Itoa(attempt)
+	}
+	s := &cbSubject{name: name, version: version, fill: fill,
 		hasMap: cbHasMap(reflect.TypeOf(body), map[reflect.Type]bool{})}
 	s.prepare = func(dec, orig encoder) { cbCarryLevels(reflect.ValueOf(dec), reflect.ValueOf(orig), 0) }
 	if framed {
@@ -1441,7 +1625,7 @@ func (c *cbFramedEnc) encode(pe packetEncoder) error { return c.r.encode(pe) }
 
 func cbRecordSubjects(rng *rand.Rand, mode int) []*cbSubject {
 	var out []*cbSubject
-	f := &cbFill{rng: rng, mode: mode}
+	f := &cbFill{rng: rng, mode: mode, shape: cbShapeOf(mode), pos: -1}
 	for codec := CompressionNone; codec <= CompressionZSTD; codec++ {
 		for _, lvl := range cbLevels[codec] {
 			b := f.recordBatch(codec, false)
@@ -1473,9 +1657,11 @@ func cbRecordSubjects(rng *rand.Rand, mode int) []*cbSubject {
 	}
 	// the records of a batch on their own: varint length fields around every record
 	var recs recordsArray
-	for i, n := 0, 1+f.count(); i < n; i++ {
-		recs = append(recs, f.record())
-	}
+	f.inside(func() {
+		for i, n := 0, 1+f.shapeAt(-1); i < n; i++ {
+			recs = append(recs, f.record())
+		}
+	})
 	nrec := len(recs)
 	out = append(out, &cbSubject{name: "recordsArray", kind: "records", version: 0, fill: cbModeName(mode), value: recs,
 		fresh: func() (decoder, versionedDecoder, encoder) { n := make(recordsArray, nrec); return n, nil, n }})
@@ -1485,8 +1671,9 @@ func cbRecordSubjects(rng *rand.Rand, mode int) []*cbSubject {
 func TestVerifCodecBody(t *testing.T) {
 	cdLimitMemory()
 	rec := vOpenRec(t, "trace.ndjson")
-	sum := &cbSummary{Runs: map[string]int{}, Skipped: map[string]int{}, Panicked: map[string]string{}, seen: map[string]bool{}}
-	fills := 4
+	sum := &cbSummary{Runs: map[string]int{}, Skipped: map[string]int{}, Panicked: map[string]string{}, seen: map[string]bool{},
+		Nested: map[string]int{}, NestedType: map[string][]string{}, nestedSeen: map[string]map[string]bool{}}
+	fills := 7 // 0 empty, 1-5 the structural shapes (see cbShapes), 6 seeded random
 	if vThorough() {
 		fills = 100
 	}
@@ -1499,9 +1686,16 @@ func TestVerifCodecBody(t *testing.T) {
 			rec.Reset(kv{"part": "body", "name": name, "ver": int(v)})
 			for mode := 0; mode < fills; mode++ {
 				salt := int64(bi)*1000003 + int64(v)*10007 + int64(mode)
-				cbRun(rec, cbBodySubject(b, v, mode, vRand(salt), false), sum)
+				// a structural shape whose scalar values the encoder refuses (e.g. a flag the version does not
+				// carry) is retried with other scalar values, so that every body x version is encoded in every shape
+				attempt := 0
+				for ; attempt < 8; attempt++ {
+					if cbRun(rec, cbBodySubject(b, v, mode, vRand(salt+int64(attempt)*7919), false, attempt), sum) || mode == 0 || mode >= len(cbShapes) {
+						break
+					}
+				}
 				if !b.resp && (mode < 2 || mode%5 == 0) {
-					cbRun(rec, cbBodySubject(b, v, mode, vRand(salt), true), sum)
+					cbRun(rec, cbBodySubject(b, v, mode, vRand(salt+int64(attempt)*7919), true, attempt), sum)
 				}
 			}
 			key := fmt.Sprintf("%s/v%d", name, v)
@@ -1517,5 +1711,21 @@ func TestVerifCodecBody(t *testing.T) {
 		}
 	}
 	rec.Close()
+	// every body x version that has a collection inside a collection must have been encoded in every nested shape class
+	for _, b := range cbBodies {
+		x := b.mk()
+		if !cbHasNested(reflect.TypeOf(x), false, map[reflect.Type]bool{}) {
+			continue
+		}
+		sum.NestedBodies++
+		for v := int16(0); v <= b.max; v++ {
+			key := fmt.Sprintf("%s/v%d", cbTypeName(x), v)
+			for _, c := range cbNestClasses {
+				if !sum.nestedSeen[key][c] {
+					sum.NestedType[key] = append(sum.NestedType[key], c)
+				}
+			}
+		}
+	}
 	vWriteJSON(t, "summary.json", sum)
 }
